@@ -173,18 +173,49 @@ def shape(o, depth=0):
     return "?" + name
 
 
+def _grant_everything():
+    """a second, maximally permissive policy living in the same process as the policy under test"""
+    from twisted.spread import jelly
+    import importlib
+    d = jelly.SecurityOptions()
+    d.allowTypes(*TYPES)
+    d.allowModules(*MODULES)
+    d.allowInstancesOf(*[getattr(importlib.import_module(c.rpartition(".")[0]), c.rpartition(".")[2])
+                         for c in CLASSES])
+    return d
+
+
 def run_real(case):
-    """-> dict(result=shape|exception class, value=object, imports=[...], insts=[...])"""
+    """-> dict(result=shape|exception class, value=object, imports=[...], insts=[...])
+
+    Several SecurityOptions objects exist per case: a decoy that is granted everything BEFORE the policy under
+    test is built, the policy under test, and a decoy granted everything AFTER it; the s-expression is unjellied
+    under the policy under test only, so grants that leak between policy objects show up as policy violations.
+    cold mode: the synthetic modules are purged (fresh-import semantics; allowed classes matched by name);
+    warm mode: all of them are imported first, class grants go through the real allowedClasses mapping."""
     _world_dir()
     _purge()
     import ljlog
+    import importlib
     from twisted.spread import jelly
-    pol = policy_of(case["policy"])       # imports the modules of allowed classes: purge again afterwards
-    allowed_cls_objs = list(pol.allowedClasses)
-    _purge()
-    # keep the allowed class objects' modules importable afresh: identity of classes changes after purge, so
-    # re-resolve the allowed classes lazily by name instead of by the stale objects
-    pol.allowedClasses = _LazyClasses(case["policy"]["classes"])
+    warm = bool(case.get("warm"))
+    decoy1 = _grant_everything()
+    if warm:
+        pol = jelly.SecurityOptions()
+        pol.allowTypes(*case["policy"]["types"])
+        pol.allowModules(*case["policy"]["modules"])
+        for c in case["policy"]["classes"]:
+            pol.allowedClasses[getattr(importlib.import_module(c.rpartition(".")[0]), c.rpartition(".")[2])] = 1
+        decoy2 = _grant_everything()
+        for m in MODULES:
+            importlib.import_module(m)
+    else:
+        pol = policy_of(case["policy"])       # imports the modules of allowed classes: purged again below
+        decoy2 = _grant_everything()
+        _purge()
+        # class objects are re-created when the synthetic modules are re-imported: match allowed classes by name
+        pol.allowedClasses = _LazyClasses(case["policy"]["classes"])
+    keep = (decoy1, decoy2)
     del ljlog.LOG[:]
     sexp = to_py(case["sexp"])
     out = {}
@@ -256,6 +287,7 @@ def impl(case) -> str:
 
 def oracle(case, obs):
     if case.get("kind") == "roundtrip":
+        obs = obs.split("|")[0]
         if obs == "same":
             return None
         if tuple_on_cycle(case["graph"]):
@@ -405,22 +437,195 @@ def tuple_on_cycle(spec) -> bool:
     return False
 
 
+def _atoms(spec):
+    """atom value -> code (1..): ints, strs and dict / attribute keys of the graph description"""
+    tab = {}
+    for d in spec:
+        vals = []
+        if d[0] in ("int", "str"):
+            vals.append(d[1])
+        elif d[0] == "dict":
+            vals += [d[k] for k in range(1, len(d) - 1, 2)]
+        elif d[0] == "inst":
+            vals += [d[k] for k in range(2, len(d) - 1, 2)]
+        for v in vals:
+            tab.setdefault((type(v).__name__, v), len(tab) + 1)
+    return tab
+
+
+def _acode(tab, v):
+    return tab[(type(v).__name__, v)]
+
+
+CLS_CODE = {"ljplain.P1": 1, "ljplain.P2": 2}
+
+
+def show_real_sexp(x, tab):
+    """the real jelly output in the syntax of GraphRun.show_fsexp"""
+    if isinstance(x, (int, str)) and not isinstance(x, bool):
+        return "a%d" % _acode(tab, x)
+    if isinstance(x, bytes):
+        return "a%d" % _acode(tab, x.decode("utf-8"))
+    tag = x[0]
+    if tag == b"None":
+        return "N"
+    if tag == b"unicode":
+        return "a%d" % _acode(tab, x[1].decode("utf-8"))
+    if tag == b"list":
+        return "(L" + "".join(" " + show_real_sexp(y, tab) for y in x[1:]) + ")"
+    if tag == b"tuple":
+        return "(T" + "".join(" " + show_real_sexp(y, tab) for y in x[1:]) + ")"
+    if tag == b"dictionary":
+        return "(D" + "".join(" " + show_real_sexp(k, tab) + " " + show_real_sexp(v, tab) for k, v in x[1:]) + ")"
+    if tag == b"reference":
+        return "(R %d %s)" % (x[1], show_real_sexp(x[2], tab))
+    if tag == b"dereference":
+        return "(d %d)" % x[1]
+    name = tag.decode()
+    if name in CLS_CODE:
+        return "(I%d %s)" % (CLS_CODE[name], show_real_sexp(x[1], tab))
+    return "?" + name
+
+
+def dump_real(root, tab):
+    """canonical dump of the unjellied object graph: objects numbered by first visit from the root"""
+    from twisted.persisted import crefutil
+    ids, order = {}, []
+
+    def ref(o):
+        if o is None:
+            return "N"
+        if isinstance(o, (int, str)) and not isinstance(o, bool):
+            return "a%d" % _acode(tab, o) if (type(o).__name__, o) in tab else "a?"
+        if id(o) not in ids:
+            ids[id(o)] = len(order)
+            order.append(o)
+            visit(o)
+        return "#%d" % ids[id(o)]
+    out = {}
+
+    def visit(o):
+        n = ids[id(o)]
+        out[n] = None
+        if isinstance(o, list):
+            out[n] = "L[" + ",".join("0:" + ref(x) for x in o) + "]"
+        elif isinstance(o, tuple):
+            out[n] = "T[" + ",".join("0:" + ref(x) for x in o) + "]"
+        elif isinstance(o, dict):
+            out[n] = "D[" + ",".join("%d:%s" % (_acode(tab, k), ref(v)) for k, v in o.items()) + "]"
+        elif isinstance(o, crefutil._Container):
+            out[n] = "P[" + ",".join("0:" + ref(x) for x in o.l) + "]"
+        elif isinstance(o, crefutil._Dereference):
+            out[n] = "X[]"
+        else:
+            name = type(o).__module__ + "." + type(o).__qualname__
+            out[n] = "I%d[" % CLS_CODE.get(name, 0) + ",".join("%d:%s" % (_acode(tab, k), ref(v))
+                                                                 for k, v in o.__dict__.items()) + "]"
+    r = ref(root)
+    return r + ";" + " ".join(out[i] for i in range(len(order)))
+
+
+def dump_model(raw):
+    """the model's raw result (root ; objects by allocation ; _Tuple placeholders) in the same canonical form"""
+    root, nodes, tups = raw.split(";")
+    nodes = nodes.split(" ") if nodes else []
+    tups = tups.split(" ") if tups else []
+
+    def slots(txt):
+        body = txt[txt.index("[") + 1:-1]
+        return [x.split(":") for x in body.split(",")] if body else []
+    ids, order, out = {}, [], {}
+
+    def ref(t):
+        if t[0] in "aN":
+            return t
+        if t not in ids:
+            ids[t] = len(order)
+            order.append(t)
+            n = ids[t]
+            out[n] = None
+            if t.startswith("#"):
+                txt = nodes[int(t[1:])]
+                kind = txt[:txt.index("[")]
+                out[n] = kind + "[" + ",".join(k + ":" + ref(v) for k, v in slots(txt)) + "]"
+            elif t.startswith("?pt"):
+                out[n] = "P[" + ",".join(k + ":" + ref(v) for k, v in slots(tups[int(t[3:])])) + "]"
+            else:
+                out[n] = "X[]"
+        return "#%d" % ids[t]
+    r = ref(root)
+    return r + ";" + " ".join(out[i] for i in range(len(order)))
+
+
 def impl_roundtrip(case) -> str:
+    """-> verdict | wire s-expression | canonical dump of the unjellied graph"""
     _world_dir()
     from twisted.spread import jelly
     import importlib
     p = jelly.SecurityOptions()
+    decoy = jelly.SecurityOptions()          # a second policy object in the same process
+    decoy.allowTypes("function", "module")
     ljplain = importlib.import_module("ljplain")
     p.allowInstancesOf(ljplain.P1, ljplain.P2)
     g = build_graph(case["graph"])
+    tab = _atoms(case["graph"])
+    sx = "?"
     with warnings.catch_warnings():
         warnings.simplefilter("ignore")
         try:
             sexp = jelly.jelly(g, p)
+            sx = show_real_sexp(sexp, tab)
             back = jelly.unjelly(sexp, p)
         except Exception as e:
-            return "raised:" + type(e).__name__
-    return same_graph(g, back)
+            return "raised:" + type(e).__name__ + "|" + sx + "|ASSERT"
+    return same_graph(g, back) + "|" + sx + "|" + dump_real(back, tab)
+
+
+def graph_coq(spec):
+    """the graph description as a Graph.heap (objects = the container nodes, in order; root = object 0)"""
+    tab = _atoms(spec)
+    hid = {}
+    nxt = 0
+    empty_tuple = None            # CPython has a single empty tuple object
+    for i, d in enumerate(spec):
+        if d[0] == "tuple" and len(d) == 1 and empty_tuple is not None:
+            hid[i] = empty_tuple
+        elif d[0] in ("list", "tuple", "dict", "inst"):
+            hid[i] = nxt
+            if d[0] == "tuple" and len(d) == 1:
+                empty_tuple = nxt
+            nxt += 1
+
+    def ref(j):
+        d = spec[j]
+        if d[0] == "none":
+            return "RNone"
+        if d[0] in ("int", "str"):
+            return "(RAtom %d%%N)" % _acode(tab, d[1])
+        return "(RNode %d)" % hid[j]
+    nodes = []
+    for i, d in enumerate(spec):
+        if d[0] == "list":
+            nodes.append("(KList, %s)" % coq_list(["(0%%N, %s)" % ref(j) for j in d[1:]], "(N * ref)"))
+        elif d[0] == "tuple":
+            if len(d) == 1 and hid[i] != len(nodes):
+                continue          # a later empty tuple: the same object as the first one
+            nodes.append("(KTuple, %s)" % coq_list(["(0%%N, %s)" % ref(j) for j in d[1:]], "(N * ref)"))
+        elif d[0] == "dict":
+            # later duplicates of a key overwrite: keep the last value at the first position, like a dict
+            kv = {}
+            for k in range(1, len(d) - 1, 2):
+                kv[d[k]] = d[k + 1]
+            nodes.append("(KDict, %s)" % coq_list(["(%d%%N, %s)" % (_acode(tab, k), ref(j)) for k, j in kv.items()],
+                                                  "(N * ref)"))
+        elif d[0] == "inst":
+            kv = {}
+            for k in range(2, len(d) - 1, 2):
+                kv[d[k]] = d[k + 1]
+            nodes.append("(KInst %d%%N, %s)" % (CLS_CODE[d[1]],
+                                               coq_list(["(%d%%N, %s)" % (_acode(tab, k), ref(j)) for k, j in kv.items()],
+                                                        "(N * ref)")))
+    return coq_list(nodes, "node")
 
 
 def rand_graph(rng):
@@ -524,7 +729,10 @@ def gen(rng, tier):
         if k < 0.12:
             out.append(rand_graph(rng))
         else:
-            out.append({"policy": rand_policy(rng), "sexp": rand_sexp(rng, real=k < 0.25)})
+            c = {"policy": rand_policy(rng), "sexp": rand_sexp(rng, real=k < 0.25)}
+            if rng.random() < 0.4:
+                c["warm"] = True
+            out.append(c)
     return out
 
 
@@ -552,6 +760,15 @@ def corpus():
          "sexp": ["instance", ["class", A("ljpkg.mod.Allowed")], ["list"]]},
         {"policy": P(["list"], ["ljpkg.mod"], ["ljpkg.mod.Allowed"]), "sexp": ["ljpkg.mod.Other", ["list"]]},
         {"policy": P(["list"], ["ljpkg.mod"], ["ljpkg.mod.Allowed"]), "sexp": ["ljpkg.mod.Allowed", ["list"]]},
+        # a policy that knows the code-ish tags but was granted no module / class, next to decoys granted everything
+        {"warm": True, "policy": P(["module", "class", "function", "instance", "method", "list", "dictionary"], [], []),
+         "sexp": ["list", ["module", A("ljpkg.mod")], ["function", A("ljpkg.mod.func")], ["class", A("ljpkg.mod.Allowed")]]},
+        {"warm": True, "policy": P(["module", "class", "function", "instance", "method", "list", "dictionary"], [], []),
+         "sexp": ["ljpkg.mod.Allowed", ["dictionary"]]},
+        {"policy": P(["module", "class", "function", "instance", "method", "list", "dictionary"], [], []),
+         "sexp": ["module", A("ljpkg.mod")]},
+        {"warm": True, "policy": P(["function"], ["ljpkg.mod"], []), "sexp": ["function", A("ljpkg.mod.ljforeign.danger")]},
+        {"policy": P(["function"], ["ljpkg.mod"], []), "sexp": ["function", A("ljpkg.mod.ljforeign.danger")]},
         {"policy": P(TYPES, MODULES, CLASSES), "sexp": ["os.system", A("x")]},
         {"policy": P(TYPES, MODULES, CLASSES), "sexp": ["function", A("os.system")]},
         {"policy": P(TYPES, MODULES, CLASSES), "sexp": ["instance", ["class", A("subprocess.Popen")], ["list"]]},
@@ -567,7 +784,7 @@ def corpus():
 # ------------------------------------------------------------------------------------------------
 # Coq side
 
-TAGC = {"None": "TNone", "list": "TList", "tuple": "TTuple", "dictionary": "TDict", "set": "TSet", "module": "TModule",
+TAGC = {"None": "Model.TNone", "list": "TList", "tuple": "TTuple", "dictionary": "TDict", "set": "TSet", "module": "TModule",
         "class": "TClass", "function": "TFunction", "instance": "TInstance", "method": "TMethod",
         "persistent": "TPersistent", "unpersistable": "TUnpersistable"}
 
@@ -614,7 +831,7 @@ def _world_coq():
 
 def to_coq(case):
     if case.get("kind") == "roundtrip":
-        return None
+        return "(inr " + graph_coq(case["graph"]) + ")"
     s = sexp_coq(case["sexp"])
     if s is None:
         return None
@@ -623,14 +840,31 @@ def to_coq(case):
     tys = coq_list([TAGC[t] if t in TAGC else f"(TName {cn(t)})" for t in names], "tag")
     pm = coq_list([cn(m) for m in pol["modules"]], "name")
     pc = coq_list([cn(c) for c in pol["classes"]], "name")
-    return f"(world_mods, world_attrs, ({tys}, {pm}, {pc}, (@nil name)), {s})"
+    warm = "true" if case.get("warm") else "false"
+    return f"(inl ({warm}, world_mods, world_attrs, ({tys}, {pm}, {pc}, (@nil name)), {s}))"
 
 
 def _header():
     mods, attrs = _world_coq()
-    return ("From C45 Require Import Model Run.\n"
+    return ("From C45 Require Import Model Run Graph GraphRun.\n"
             f"Definition world_mods : list name := {mods}.\n"
-            f"Definition world_attrs : list (name * N * obj) := {attrs}.")
+            f"Definition world_attrs : list (name * N * obj) := {attrs}.\n"
+            "Definition run_any (c : (bool * list name * list (name * N * obj) * (list tag * list name * list name * "
+            "list name) * sexp) + heap) : string := match c with inl x => run_show x | inr h => run_graph h end.")
+
+
+def model_equal(case, impl_obs, model_out):
+    if case.get("kind") != "roundtrip":
+        return impl_obs == model_out
+    _, sx, dump = impl_obs.split("|")
+    if "|" not in model_out:
+        return False
+    msx, mraw = model_out.split("|")
+    if sx != msx:
+        return False
+    if dump == "ASSERT" or mraw == "ASSERT":
+        return dump == mraw
+    return dump_model(mraw) == dump
 
 
 def shrink(case):
@@ -661,6 +895,8 @@ def shrink(case):
 def hist(case, obs):
     if case.get("kind") == "roundtrip":
         return "roundtrip"
+    if case.get("warm"):
+        obs = "warm-" + obs
     s = case["sexp"]
     tag = s[0] if isinstance(s, list) and s else "atom"
     if tag not in TAGC:
@@ -674,8 +910,9 @@ SPEC = Spec(
     impl=impl,
     oracle=oracle,
     coq_header=_header(),
-    coq_fn="run_show",
+    coq_fn="run_any",
     to_coq=to_coq,
+    model_equal=model_equal,
     corpus=corpus,
     shrink=shrink,
     histogram=hist,
